@@ -238,7 +238,7 @@ pub fn run(args: &[String]) -> i32 {
                     }
                 }
                 let mut sl = sess.lock().expect("lock");
-                sl.extra_reads = vec![LAST_W_SEQ.load(std::sync::atomic::Ordering::Acquire) + 1];
+                sl.extra_reads.push(LAST_W_SEQ.load(std::sync::atomic::Ordering::Acquire) + 1);
                 let mut bad = false;
                 // every line of the probe carries the state / reads after the whole probe, so the
                 // write comes first: from there on the ghost expects it to be readable
@@ -325,7 +325,7 @@ pub fn run(args: &[String]) -> i32 {
             let ws = LAST_W_SEQ.load(std::sync::atomic::Ordering::Acquire);
             if p == "w" && step == "write" && at == "done" {
                 // what the writer has published: reads at this snapshot must see the write
-                s.extra_reads = vec![ws + 1];
+                s.extra_reads.push(ws + 1);
             }
             let rk = ret.split(':').next().unwrap_or("").to_string();
             let rec = json!({"op": {"op": "cstep", "p": p, "step": step, "arg": stp["arg"], "at": at},
